@@ -83,6 +83,7 @@ type Exec struct {
 	covered  map[string]bool // clause labels reached on a feasible path
 	vacuity  []string
 	specErr  string
+	lenView  *HeapView // heap view for len() of maps inside contract expressions (nil = current)
 }
 
 func (x *Exec) unsupported(msg string) {
@@ -700,6 +701,13 @@ func (x *Exec) step(st *State, fr *Frame, instr ssa.Instruction) {
 			x.bind(fr, i, x.freshVal(st, i.Type(), "fa"))
 			return
 		}
+		if p.P.Kind == PObj && !isNumLit(p.P.Base.S) {
+			// taking a field address through a nil pointer panics: the continuing path has a non-nil base
+			if x.fc != nil && x.fc.Safety {
+				x.prove(st, x.fname+"/safety:nil", "safety", "non-nil dereference", tNot(tEq(p.P.Base, tNil)), x.P.pos(i.Pos()))
+			}
+			x.assume(tNot(tEq(p.P.Base, tNil)))
+		}
 		x.bind(fr, i, Val{K: KPtr, Typ: i.Type(), P: x.fieldPtr(st, p.P, i.Field)})
 	case *ssa.Field:
 		s := x.val(st, fr, i.X)
@@ -1048,6 +1056,17 @@ func (x *Exec) valEq(a, b Val) Term {
 	case KIface:
 		if b.K == KIface {
 			return tAnd(tEq(a.Fs[0].T, b.Fs[0].T), tEq(a.Fs[1].T, b.Fs[1].T))
+		}
+	case KSlice:
+		if b.K == KSlice {
+			zero := func(v Val) bool { return v.Fs[0].T.S == "0" && v.Fs[2].T.S == "0" }
+			if zero(b) {
+				return tEq(a.Fs[0].T, tZero) // s == nil
+			}
+			if zero(a) {
+				return tEq(b.Fs[0].T, tZero)
+			}
+			return tAnd(tEq(a.Fs[0].T, b.Fs[0].T), tEq(a.Fs[1].T, b.Fs[1].T), tEq(a.Fs[2].T, b.Fs[2].T))
 		}
 	case KStruct:
 		if b.K == KStruct && len(a.Fs) == len(b.Fs) {
